@@ -27,7 +27,7 @@ CLAIMED = {
     design="7/C12"),
   "C16": dict(
     text="Lean 4 theorems over a model composed from the C13 call-graph model: C16_roots_rule with minL_is_min (instances = matching rows at the shallowest depth at which the name occurs, with at least min_pattern_len kernels), C16_kernels_in_start_order (an instance's pattern is its name followed by the names of all device activities beneath it, sorted by start), C16_pattern_counts_exact (one row per distinct pattern; count = number of occurrences; CPU and GPU durations are sums over its instances), C16_order_desc (rows by descending count; ordering is a permutation). Tied to get_frequent_cuda_kernel_sequences(operator, out_dir, min_pattern_len, rank, top_k) for operator names and substrings occurring in the trace by a differential run and an independent Python oracle that rebuilds the tree from time containment and links.",
-    note=TB + "Conditional on C03/C13 (tree) and C02 (links). Kernels of one instance starting at the same microsecond may appear in either order; such patterns are compared with the tied names sorted. The secondary order by pattern string is Python's string order applied in the harness.",
+    note=TB + "Known finding host-tid-1-or-2 (see C13). Conditional on C03/C13 (tree) and C02 (links). Kernels of one instance starting at the same microsecond may appear in either order; such patterns are compared with the tied names sorted. The secondary order by pattern string is Python's string order applied in the harness.",
     technique="Lean 4 proof (group-by/filter lemmas, mergeSort order lemmas) + model/implementation correspondence",
     design="7/C16"),
   "C17": dict(
@@ -51,17 +51,17 @@ CLAIMED = {
     technique="Lean 4 proof (list induction over positions; sub-sequence and membership characterisations) + model/implementation correspondence on real files",
     design="7/C20"),
   "C08": dict(
-    text="Lean 4 model of the whole graph construction (window clipping, node creation, the DFS enter/exit state machine over the C03 token order with its closure variables, the kernel loop with launch-delay / kernel-kernel / Stream Sync / Context Sync edges, the weight helper, edge attribution, networkx's edge replacement) that reproduces the implementation's edge set exactly on every generated trace. Theorems: C08_nodes_two_per_event, C08_edge_weight_rule (every edge weighs the time difference of its endpoints or 0; dependency and sync edges 0), C08_callstack_edges_forward (for any time-sorted token list the DFS emits only forward edges; invariant over the closure state) with sortToks_time_sorted, C08_forward_of_descs, C08_weights_nonneg (forward + weight rule => no negative weight), C08_kernel_edge_types (launch edge: start of the linked runtime call -> start of its kernel; kernel-kernel: end of the last kernel of the stream; sync: end of a stream's last kernel -> end of the waiting host call), C08_checkTopo_sound (a graph passing the rank certificate has no cycle). Per run, the proved checkers (topological certificate, weights, forward, types) are evaluated in Lean on the implementation's own graph, alongside full model/implementation equality and a Python oracle.",
-    note=TB + "Partial: stage 1 only (traces without cudaEventRecord / cudaStreamWaitEvent / Event Sync records, which the model does not yet cover); forwardness of kernel-loop edges and acyclicity are certified per run by proved checkers rather than proved for all inputs; the queue-length series (C14) and the links (C02) are inputs.",
+    text="Lean 4 model of the whole graph construction (window clipping, node creation, the DFS enter/exit state machine over the C03 token order with its closure variables, the kernel loop with launch-delay / kernel-kernel / Stream Sync / Context Sync edges and CUDA-event based synchronisation (launch table, cudaEventRecord -> previous launch, cudaStreamWaitEvent -> next launch, pending GPU->GPU dependencies, Event Sync edges), the weight helper, edge attribution, networkx's edge replacement) that reproduces the implementation's edge set exactly on every generated trace. Theorems: C08_nodes_two_per_event, C08_edge_weight_rule (every edge weighs the time difference of its endpoints or 0; dependency and sync edges 0), C08_callstack_edges_forward (for any time-sorted token list the DFS emits only forward edges; invariant over the closure state) with sortToks_time_sorted, C08_forward_of_descs, C08_weights_nonneg (forward + weight rule => no negative weight), C08_kernel_edge_types (launch edge: start of the linked runtime call -> start of its kernel; kernel-kernel: end of the last kernel of the stream; sync: end of a stream's last kernel -> end of the waiting host call, end of the kernel an event stands for -> end of cudaEventSynchronize, or -> start of the kernel a Stream Wait Event made wait), C08_kernel_edges_forward (for EVERY causally consistent processing order - structure Causal: work starts after its launch, stream order, blocking syncs return after the awaited work, event waits respected - every edge the kernel loop emits points forward in time; loop invariant KInv), C08_checkTopo_sound (a graph passing the rank certificate has no cycle). Per run, the proved checkers (topological certificate, weights, forward, types) are evaluated in Lean on the implementation's own graph, alongside full model/implementation equality and a Python oracle.",
+    note=TB + "Partial: acyclicity is certified per run by the proved checker on the implementation's graph (a topological rank) rather than proved for all inputs; that the pandas sort of the kernel loop yields a causally consistent order is exercised by the correspondence, the theorem takes such an order as hypothesis; ties between host calls of different threads at one microsecond are not generated for event records / stream waits; the queue-length series (C14) and the links (C02) are inputs of the model.",
     technique="Lean 4 proof (state-machine invariants, certificate-checker soundness) + exact model/implementation graph correspondence",
     design="7/C08"),
   "C09": dict(
-    text="networkx.dag_longest_path is validated per run by a checker whose soundness is proved in Lean: pathWeight_le_potential / C09_potential_bounds_all_paths (a non-negative potential with d(src)+w <= d(dst) on every edge bounds the weight of EVERY path), C09_reported_path_is_maximum (a reported path meeting the bound is a maximum-weight path), C09_path_le_makespan (with weights at most the time difference of their endpoints a path weighs at most the time from its first to its last node), C09_path_edges (one graph edge per consecutive pair of path nodes), checkPotential_sound. Per run the Lean longest-path DP over networkx's topological order produces the certificate, Lean checks it and compares the reported path's weight with the optimum, for the original graph and for re-weighted copies (the what-if workflow); the reported edge and event sets are compared with the path; an independent memoised DFS in Python cross-checks.",
+    text="networkx.dag_longest_path is validated per run by a checker whose soundness is proved in Lean: pathWeight_le_potential / C09_potential_bounds_all_paths (a non-negative potential with d(src)+w <= d(dst) on every edge bounds the weight of EVERY path), C09_reported_path_is_maximum (a reported path meeting the bound is a maximum-weight path), C09_path_le_makespan (with weights at most the time difference of their endpoints a path weighs at most the time from its first to its last node), C09_path_edges (one graph edge per consecutive pair of path nodes), checkPotential_sound. Per run the Lean longest-path DP over networkx's topological order produces the certificate, Lean checks it and compares the reported path's weight with the optimum, for the original graph and for re-weighted copies (the what-if workflow, judged against the weights that were assigned, so a recomputation that silently restores weights shows); the reported edge and event sets are compared with the path; an independent memoised DFS in Python cross-checks.",
     note=TB + "Translation-validation style use of a proved checker: the optimisation algorithm itself (networkx) is not modelled. The makespan clause is checked on unmodified graphs only.",
     technique="Lean 4 proof of a certificate checker (potential function / telescoping) + per-run validation of networkx's answer",
     design="7/C09"),
   "C10": dict(
-    text="Lean 4 theorems over the breakdown model on top of the C08 graph model: C10_rows_one_per_critical_edge, C10_durations_sum_to_path_weight, C10_boundBy_delay / C10_boundBy_span (bound-by class from edge type and attributed event: host thread -> cpu_bound, communication kernel -> gpu_communication_bound, other device activity -> gpu_compute_bound), C10_class_sums_total (per-class sums add up to the total, so the percentages to 100), C10_attribution_recorded / C10_attribution_rule (kernel-kernel delay -> preceding kernel; span edge -> source event for a start node, destination event when both are end nodes, recorded parent otherwise). Tied to get_critical_path_breakdown, summary and get_event_attribution_for_edge (all edges, not only critical ones) by a differential run; that the attributed event of a span edge lies on the same thread/stream and covers the edge's time range is checked per run by the Python oracle.",
+    text="Lean 4 theorems over the breakdown model on top of the C08 graph model: C10_rows_one_per_critical_edge, C10_durations_sum_to_path_weight, C10_boundBy_delay / C10_boundBy_span (bound-by class from edge type and attributed event: host thread -> cpu_bound, communication kernel -> gpu_communication_bound, other device activity -> gpu_compute_bound), C10_class_sums_total (per-class sums add up to the total, so the percentages to 100), C10_attribution_recorded / C10_attribution_rule (kernel-kernel delay -> preceding kernel; span edge -> source event for a start node, destination event when both are end nodes, recorded parent otherwise). Tied to get_critical_path_breakdown, summary and get_event_attribution_for_edge (all edges, not only critical ones) by a differential run; that the attributed event of a span edge lies on the same thread/stream and covers the edge's time range is checked per run by the Python oracle. A sub-microsecond stream (HTA_DISABLE_NS_ROUNDING=1, dyadic fractional times) decides the conservation clause directly on the implementation's numbers.",
     note=TB + "Partial: the covering clause (attributed event's span contains the edge's time range) is established per run by the oracle, not by a theorem; the reported path is the implementation's (C09).",
     technique="Lean 4 proof (list/fold lemmas, case analysis) + model/implementation correspondence",
     design="7/C10"),
@@ -97,7 +97,7 @@ CLAIMED = {
     design="7/C06"),
   "C13": dict(
     text="Lean 4 theorems over a model of the whole CallGraph construction (per-thread stacks via the C03 model, device children, main/backward linking, depth, height, kernel aggregation, normalisation): C13_kinfo_is_fold_over_descendants (the DFS aggregate equals the aggregate over the device activities among the descendants; mutual structural induction), C13_kernel_attributes (the five reported numbers are count / summed duration / span / earliest start / latest end, and (0,0,0,-1,-1) when there are none; earliest and latest are attained and bound all), C13_height_rule / heightL_spec / C13_childless_host_height, C13_depth_rule, C13_device_child_of_launch, C13_reparent_rule (only first-layer backward nodes within the annotation's span move, and they move beneath it). Tied to CallGraph(trace).trace_data.get_trace(rank) on traces loaded through TraceAnalysis (1-2 host threads, with/without backward annotation, several ranks) by a differential run on all eight stack columns and a Python oracle phrased through parent pointers.",
-    note=TB + "Depends on C03 (per-thread parents) and C02 (links). The bridge from the node table to the tree (mkT) is executable model code validated by the correspondence, not a theorem. Children order is not compared.",
+    note=TB + "Known finding host-tid-1-or-2 (known_findings.txt): a host thread whose thread id is 1 or 2 collides with the call graph's sentinel root indices; inputs with such a thread are reported as KNOWN-FINDING, not as violations. Depends on C03 (per-thread parents) and C02 (links). The bridge from the node table to the tree (mkT) is executable model code validated by the correspondence, not a theorem. Children order is not compared.",
     technique="Lean 4 proof (mutual structural induction on the call tree; fold lemmas) + model/implementation correspondence",
     design="7/C13"),
   "C14": dict(
